@@ -414,9 +414,18 @@ class FromSpecifier:
                       for nm, c in range_form_clauses(r, SpecText([(op, pv)]), same=lambda a, c: V.ord(a) == V.ord(c))]
                 # C10: an atom is a cache key compared by (name, op, value, reversed); the view it carries must be the one its own text gives, in
                 # spelling too (`_simplified_form` reads the release length of the bounds): the given specifier may be installed only when the value
-                # is that specifier's own clause text - a zero-padded value must leave the view to be derived from the text
+                # is that specifier's own clause text - a zero-padded value must leave the view to be derived from the text.
+                # A view with two bounds shows only one of them in the value (`==V`: min, `~=V` / `==P.*`: min or the prefix), so the other bound
+                # of a given range can be spelled differently (5.11 vs 5.11.0) from what the text gives and `|` / `&` results rendered from it
+                # differ between two equal atoms (D21): only a one-bound range whose bound is the value's own text may be installed.
                 inst = res.fields.get("_specifier")
-                cl.append(("C10.from_specifier.installed-view-is-spelled-as-the-value", z3.BoolVal(inst is None or (inst is r and isinstance(res.fields["value"], VersionText)))))
+                if inst is None:
+                    shown = z3.BoolVal(True)
+                elif inst is r and isinstance(res.fields["value"], VersionText):
+                    shown = z3.Not(z3.And(mn.has, mx.has))
+                else:
+                    shown = z3.BoolVal(False)
+                cl.append(("C10.from_specifier.installed-view-is-the-one-the-text-gives", shown))
                 cl.append(("C11.from_specifier.not-universal", z3.Not(universal)))
                 return cl
             yield {"name": name, "pre": pre, "thunk": thunk, "post": post, "args": (r,), "describe": describe}
@@ -459,7 +468,7 @@ class FromSpecifier:
                     return [("C11.from_specifier.parsed.returns-atom", z3.BoolVal(False))]
                 val = res.fields["value"]
                 cl = [("C11.from_specifier.parsed.operator-kept", z3.BoolVal(res.fields["op"] == op.rstrip("*"))),
-                      ("C10.from_specifier.installed-view-is-spelled-as-the-value",
+                      ("C10.from_specifier.installed-view-is-the-one-the-text-gives",
                        z3.BoolVal(res.fields.get("_specifier") is None or (res.fields.get("_specifier") is s and not isinstance(val, PaddedText_))))]
                 if op == "!=":
                     from pyvc.theories.version import PaddedText
